@@ -29,6 +29,8 @@ VH_DRIVER(escape){
   // the line-break state (CR, LF, CR LF, with spaces / ordinary characters in between) is covered systematically and never subsampled:
   // all strings up to length 4 (thorough 5) over {CR, LF, space, 'a'} come first and are always kept
   std::vector<Text> must; { std::vector<int> br={13,10,32,'a'}; int ML=g.thorough?5:4; for(int len=1;len<=ML;++len){ std::vector<int> ix(len,0); while(true){ Text t; for(int i=0;i<len;++i) t.push_back(br[ix[i]]); must.push_back(t); int i=len-1; while(i>=0&&++ix[i]==(int)br.size()){ ix[i]=0; --i; } if(i<0) break; } } }
+  { std::vector<Text> tok={T("%0D"),T("%0A"),T("%41"),T("%"),T("4"),T("g"),T("+"),T("%4"),T("\r"),T("\n")}; int TL=g.thorough?4:3;
+    for(int len=1;len<=TL;++len){ std::vector<int> ix(len,0); while(true){ Text t; for(int i=0;i<len;++i) t.insert(t.end(),tok[ix[i]].begin(),tok[ix[i]].end()); must.push_back(t); int i=len-1; while(i>=0&&++ix[i]==(int)tok.size()){ ix[i]=0; --i; } if(i<0) break; } } }
   size_t nmust=must.size(); in.insert(in.begin(),must.begin(),must.end());
   long per=8+16; size_t total=in.size()*per; double keep= total>(size_t)want? (double)want/total:1.0; long k=0; size_t idx=0;
   for(auto&t:in){ bool narrow=true; for(int c:t) if(c>255) narrow=false; double keep_save=keep; if(idx++<nmust) keep=1.0; struct Restore{ double&k; double v; ~Restore(){ k=v; } } restore{keep,keep_save};
